@@ -71,7 +71,7 @@ CLAIM = {
             "answers, frames nobody asked for) and are read later, in the read of the next exchange (the code) or at the beginning "
             "of the next call: no request starts earlier than t35 after ANY earlier read that took bytes, for every rule that "
             "records the instant after such a read; reading the buffer empty at the beginning of a call without recording it is "
-            "proved not to keep the silence.",
+            "proved not to keep the silence. At source level (Properties/C19t.v): rtuTransport.ExecuteRequest as translated on every run, with the clock as an external function, writes its frame exactly at max(now, lastActivity + t3.5) against a silent peer and never earlier than lastActivity + t3.5 whatever the link does.",
     "note": "Level proof for the computation clause. The observed-silence clause is PARTIAL: the state-machine theorem is about a "
             "hand-written model of rtu_transport.go:64-107 over an abstract clock; real clocks, scheduler latency, kernel/tty buffering "
             "(Write returns before the bytes are on the line; the code only estimates n*t1) and the physical line are outside the "
